@@ -3,7 +3,7 @@
 use std::borrow::Cow;
 use std::io::{self, Write};
 
-use crate::errors::Result;
+use crate::errors::{Error, Result};
 use crate::histogram::BUCKET_LABEL;
 use crate::proto::{self, MetricFamily, MetricType};
 #[cfg(feature = "protobuf")]
@@ -55,6 +55,9 @@ impl TextEncoder {
         for mf in metric_families {
             // Fail-fast checks.
             check_metric_family(mf)?;
+            if mf.get_field_type() == MetricType::UNTYPED {
+                return Err(untyped_unsupported(mf.name()));
+            }
 
             // Write `# HELP` header.
             let name = mf.name();
@@ -150,7 +153,7 @@ impl TextEncoder {
                         )?;
                     }
                     MetricType::UNTYPED => {
-                        unimplemented!();
+                        return Err(untyped_unsupported(name));
                     }
                 }
             }
@@ -158,6 +161,13 @@ impl TextEncoder {
 
         Ok(())
     }
+}
+
+fn untyped_unsupported(name: &str) -> Error {
+    Error::Msg(format!(
+        "MetricFamily {} has type UNTYPED, which the text encoder does not support",
+        name
+    ))
 }
 
 impl Encoder for TextEncoder {
